@@ -212,12 +212,12 @@ CHECKS = {
                        "are no further arguments; 3 formats; verbs Error..Fail, Print, Println, Panic (no-interrupt). Asserted: the call "
                        "returns; admitted => one Write per selected destination, payload ends in newline, nothing elsewhere; not admitted "
                        "=> nothing anywhere; blank Print/Println => exactly one newline byte. A second run makes all 64 flag bits symbolic.",
-        "bounds": {"quick": "message <= 1 byte (all values); 1 argument of any kind (groups of <= 2 members of any kind) x 11 verbs; 2 arguments of any kind without nesting x 3 verbs; logger levels Trace/Warn/Off; flags run (all 64 flag bits symbolic): Info and Error, 3 formats, no arguments",
+        "bounds": {"quick": "message <= 1 byte (all values); 1 argument of any kind (groups of <= 1 member of any kind) x 11 verbs; 2 arguments of any kind without nesting x 3 verbs; logger levels Trace/Warn/Off; flags run (all 64 flag bits symbolic): Info and Error, 3 formats, no arguments",
                    "thorough": "message <= 2 bytes; 1 argument with group depth 2; 2 arguments with group depth 1"},
         "outside": "values whose own methods panic, cyclic values (excluded by the property); longer argument lists",
         "assumptions": ["time.Now is a fixed instant; runtime.Callers answered from the engine's call stack"],
         "runs": [
-            {"harness": "VH_C02", "quick": {"msg": 1, "args": 1, "depth": 1}, "thorough": {"msg": 2, "args": 1, "depth": 2},
+            {"harness": "VH_C02", "quick": {"msg": 1, "args": 1, "depth": 1, "gmembers": 1}, "thorough": {"msg": 2, "args": 1, "depth": 2, "gmembers": 2},
              "covers": ["C02:returned", "C02:admitted", "C02:blank"]},
             {"harness": "VH_C02", "quick": {"msg": 0, "args": 2, "depth": 0}, "thorough": {"msg": 0, "args": 2, "depth": 1},
              "covers": ["C02:returned", "C02:admitted"]},
